@@ -200,6 +200,16 @@ impl Server {
         }
     }
 
+    /// Drop everything recorded so far (a long-lived server in a long run would otherwise
+    /// keep every answer ever received in memory).
+    pub fn forget(&mut self) {
+        self.responses.clear();
+        self.sent_requests.clear();
+        self.notifications.clear();
+        self.server_requests.clear();
+        self.arrival.clear();
+    }
+
     pub fn wait_response(&mut self, id: i64, timeout: Duration) -> Option<Value> {
         self.pump_until(timeout, |s| s.responses.contains_key(&id));
         self.responses.get(&id).and_then(|v| v.first().cloned())
